@@ -38,6 +38,7 @@ func newSemMap(rwRatio int) *SemMap {
 	m.mux = &sync.Mutex{}
 	m.m = make(map[interface{}]*Weighted)
 	m.rwRatio = rwRatio
+	verifNew(m)
 	return m
 }
 
